@@ -1146,6 +1146,36 @@ type forcedAuto struct {
 type forcedManual struct {
 	ins     []*outInfo
 	amounts []int64
+	respell int // 0: as is; else respellTxId's mode for every input after the first
+}
+
+// respellTxId returns another text of the same transaction id: 1 upper case, 2 mixed case, 3 leading
+// zeros dropped (NewHashFromStr pads; the API insists on 64 characters, so through the API this is
+// upper case); 0 and anything else: unchanged. The outpoint named is the same, so the model is told
+// the same coin.
+func respellTxId(r *rng.R, how int, id string, viaAPI bool) string {
+	if len(id) != 64 {
+		return id
+	}
+	switch how {
+	case 1:
+		return strings.ToUpper(id)
+	case 2:
+		b := []byte(id)
+		for i := range b {
+			if b[i] >= 'a' && b[i] <= 'f' && ((r != nil && r.Chance(50)) || (r == nil && i%2 == 0)) {
+				b[i] -= 'a' - 'A'
+			}
+		}
+		return string(b)
+	case 3:
+		t := strings.TrimLeft(id, "0")
+		if viaAPI || t == "" || t == id {
+			return strings.ToUpper(id)
+		}
+		return t
+	}
+	return id
 }
 
 // manualStep performs one CreateRawTransaction call with explicit inputs and prints its M line.
@@ -1174,8 +1204,11 @@ func (s *scn) manualStep(forced *forcedManual) error {
 	clean := r.Chance(62)
 	viaAPI := forced == nil && r.Chance(30)
 	if forced != nil {
-		for _, oi := range forced.ins {
+		for i, oi := range forced.ins {
 			addOut(oi)
+			if forced.respell != 0 && i > 0 {
+				ins[len(ins)-1].TxId = respellTxId(nil, forced.respell, ins[len(ins)-1].TxId, false)
+			}
 		}
 		nin = 0
 	}
@@ -1199,9 +1232,9 @@ func (s *scn) manualStep(forced *forcedManual) error {
 			addOut(ownStd[r.Intn(len(ownStd))]) // may repeat an earlier one (duplicate)
 		case k < 72 && len(own) > 0:
 			addOut(own[r.Intn(len(own))]) // staking / binding / spent / immature ones included
-		case k < 78 && len(desc) > 0 && len(ins) > 0: // explicit duplicate
+		case k < 78 && len(desc) > 0 && len(ins) > 0: // explicit duplicate, half of them under another spelling of the same id
 			j := r.Intn(len(ins))
-			ins = append(ins, &masswallet.TxIn{TxId: ins[j].TxId, Vout: ins[j].Vout})
+			ins = append(ins, &masswallet.TxIn{TxId: respellTxId(r, r.Intn(6), ins[j].TxId, viaAPI), Vout: ins[j].Vout})
 			desc = append(desc, desc[j])
 			if f := strings.Split(desc[j], ":"); len(f) > 1 {
 				var v int64
@@ -1260,6 +1293,13 @@ func (s *scn) manualStep(forced *forcedManual) error {
 		default:
 			ins = append(ins, &masswallet.TxIn{TxId: strings.Repeat("ab", 32), Vout: 1})
 			desc = append(desc, "U")
+		}
+	}
+	if forced == nil && r.Chance(12) {
+		for _, in := range ins {
+			if len(in.TxId) == 64 && r.Chance(50) {
+				in.TxId = respellTxId(r, 1+r.Intn(3), in.TxId, viaAPI)
+			}
 		}
 	}
 	if forced == nil && r.Chance(3) {
@@ -1418,7 +1458,7 @@ func runScenario(seed uint64, n int, out *bufio.Writer) (err error) {
 	s := &scn{h: h, r: r, n: n, out: out, ops: map[wire.OutPoint]*outInfo{}, shOwner: map[int]int{}}
 	profile := 0
 	switch {
-	case n == 0 || n == 1:
+	case n >= 0 && n <= 4:
 		profile = -1 // corpus scenarios, see below
 	case n%29 == 3:
 		profile = 4
@@ -1454,6 +1494,8 @@ func runScenario(seed uint64, n int, out *bufio.Writer) (err error) {
 //
 //	n = 0: C02_exact_iff_refuted — one coin of 100000, request 89999 with user fee 0.
 //	n = 1: C02_manual_no_dup_refuted — the same explicit input twice.
+//	n = 2, 3, 4: the same explicit input twice, the second time under another spelling of its id
+//	             (upper case, mixed case, leading zeros dropped).
 func (s *scn) corpus(n int) error {
 	h := s.h
 	var err error
@@ -1495,7 +1537,8 @@ func (s *scn) corpus(n int) error {
 			coin = oi
 		}
 	}
-	return s.manualStep(&forcedManual{ins: []*outInfo{coin, coin}, amounts: []int64{150000}})
+	// n = 1: textually identical; n = 2, 3, 4: the second one under another spelling of the same id
+	return s.manualStep(&forcedManual{ins: []*outInfo{coin, coin}, amounts: []int64{150000}, respell: n - 1})
 }
 
 func main() {
